@@ -32,6 +32,7 @@ def comps():
     c['dn'] = lambda i: [('n%d' % i, I(1)), ('d%d' % i, D(F('n%d' % i)))]
     c['dx'] = lambda i: [('n%d' % i, I(1)), ('d%d' % i, D(BIN('mul', F('n%d' % i), C(2))))]
     c['dl'] = lambda i: [('n%d' % i, I(1)), ('d%d' % i, D(BIN('add', F('n%d' % i), C(1)), sp='lambda'))]
+    c['dxx'] = lambda i: [('t%d' % i, I(1)), ('w%d' % i, I(1)), ('d%d' % i, D(BIN('sub', F('t%d' % i), BIN('mul', F('w%d' % i), C(2)))))]
     c['m0'] = lambda i: [('d%d' % i, DM(b'\x00'))]
     c['m0i'] = lambda i: [('d%d' % i, DM(b'\x00', incl=True))]
     c['mab'] = lambda i: [('d%d' % i, DM(b'.b'))]
@@ -150,6 +151,17 @@ def check_decl(dc, st, tier, only=None):
                            '%s: as_regular_expression() raised %r | %s' % (what, e, srcline), case, snip)
                 continue
             st.add('states', (tuple(dc.spec['c18']), repr(dc.spec.get('opts')), sub, bytes(rx.pattern)))
+            # building the expression evaluates size expressions on placeholder values (and swallows what they
+            # raise): parsing must be undisturbed by it
+            for s0, p0 in list(zip(corpus, unpacked))[:40]:
+                if p0 is None or len(s0) < 2:
+                    continue
+                again = K.unpack(s0, silent=True)
+                if again is None or any(getattr(again, n) != getattr(p0, n) for n in names):
+                    st.violate('building the expression disturbs later parsing', '%s: after as_regular_expression(), unpack(%r) gives %r | %s' % (
+                        what, s0, again and [getattr(again, n) for n in names], srcline), dict(case, raw=s0), snip)
+                    break
+                break
             nmatch = 0
             for s, p in zip(corpus, unpacked):
                 if p is None:
